@@ -8,7 +8,10 @@
          case analysis (see cao/backshift.py).
   C07.H  (= C12.H, shared) one home-slot function in the hash part.
 
-Ordering, append's key choice and aliasing semantics are behavioural and NOT claimed.
+  C07.A  append never overwrites: the key `append` hands to `insert` was just tested absent - the insert is dominated by the
+         `false` edge of a `map.contains(key)` test on every path.
+
+Ordering, the exact key append chooses and aliasing semantics are behavioural and NOT claimed.
 """
 from cao.facts import AnchorMissing, hir_walk, hir_callee, hir_strip, hir_local_id, short
 from cao.rules import Rule, ok, bad, undecided, note, shared
@@ -27,6 +30,54 @@ EXPLANATION = (
 ASSUMPTIONS = ["CaoHashMap is a faithful map (C12)", "Vec operations behave as documented"]
 
 import rules.c12 as _c12  # noqa: E402
+
+
+def rule_a(F):
+    from cao.facts import callee_names, op_local, DefUse
+    from cao import mirutil as mu
+    res = []
+    f = F.fn(TABLE + "::append")
+    cfg = f.cfg
+    du = DefUse(f)
+    key = "C07/A/append/key-tested-absent"
+    contains = [(bi, t) for bi, t in mu.calls(f) if any(n.endswith("CaoHashMap::contains") or n.endswith("CaoHashMap::contains_with_hint")
+                                                         or n.endswith("CaoLangTable::contains") for n in callee_names(t["func"]))]
+    inserts = [(bi, t) for bi, t in mu.calls(f) if any(n.endswith("CaoLangTable::insert") or n.endswith("::_insert") or n.endswith("CaoHashMap::insert")
+                                                        for n in callee_names(t["func"]))]
+    if not inserts:
+        raise AnchorMissing("insert call in CaoLangTable::append")
+    if not contains:
+        return [bad("C07.A", key, f.loc(), "append inserts under a key it never tested for presence: an existing row can be overwritten")]
+    # blocks entered when contains(..) answered false
+    absent_edges = set()
+    for cb, ct in contains:
+        dl = ct["dest"]["l"]
+        for bi, b in enumerate(f.blocks):
+            t = b["term"]
+            if t["k"] != "switch":
+                continue
+            if op_local(t["discr"]) is None:
+                continue
+            kind, payload = du.trace_back(op_local(t["discr"]))
+            src = None
+            if kind == "call" and payload is ct:
+                src = True
+            elif op_local(t["discr"]) == dl:
+                src = True
+            if src:
+                zero = dict((v, bb) for v, bb in t["targets"]).get(0)
+                if zero is not None:
+                    absent_edges.add(zero)
+    okp = bool(absent_edges) and all(any(cfg.dominates(z, ib) for z in absent_edges) for ib, _t in inserts)
+    if okp:
+        res.append(ok("C07.A", key, f.loc(), "the insert is dominated by the `absent` edge of map.contains(key)"))
+    else:
+        res.append(bad("C07.A", key, f.loc(inserts[0][1].get("ln")),
+                       "CaoLangTable::append can reach its insert without the key having been tested absent (a path skips the "
+                       "`map.contains` probe): when that integer key already exists the append overwrites its row - the length does not "
+                       "grow and the old value is lost"))
+    return res
+
 
 TABLE = "vm::runtime::cao_lang_table::CaoLangTable"
 KEYS_ADD = ("push", "insert", "extend", "extend_from_slice", "append")
@@ -173,6 +224,7 @@ def rule_m(F):
 
 RULES = [
     Rule("C07.S", rule_s, 4, "map and keys change together in every mutator"),
+    Rule("C07.A", rule_a, 1, "append never overwrites an existing row"),
     Rule("C07.M", rule_m, 2, "no outside writer of one half"),
     Rule("C07.B", shared(_c12.rule_b, "C12.B", "C07.B"), 4, "removal from the hash part keeps the other keys reachable (shared with C12)"),
     Rule("C07.H", shared(_c12.rule_h, "C12.H", "C07.H"), 1, "one home-slot function in the hash part (shared with C12)"),
